@@ -127,6 +127,7 @@ class ThetaForecaster(ExponentialSmoothing):
         self : returns an instance of self.
         """
         y, _ = check_y_X(y, X)
+        y_observed = y
         sp = check_sp(self.sp)
         if sp > 1 and not self.deseasonalize:
             warn("`sp` is ignored when `deseasonalise`=False")
@@ -139,6 +140,9 @@ class ThetaForecaster(ExponentialSmoothing):
         # fit exponential smoothing forecaster
         # find theta lines: Theta lines are just SES + drift
         super(ThetaForecaster, self).fit(y, fh=fh)
+        # remember the observed series, not the deseasonalised one: `update` merges
+        # new observations into it and deseasonalises the result as a whole
+        self._y = y_observed
         self.initial_level_ = self._fitted_forecaster.params["smoothing_level"]
 
         # compute trend
